@@ -116,6 +116,7 @@ func runSrvTCP(t *testing.T, c caseDef, useDefault bool) []string {
 			options.WithErrors(func(error) {}),
 			options.WithMessagePool(pool.New(64, 2048)),
 			options.WithPeriodicRunner(func(f func(now time.Time) bool) { tickFn = f }),
+			options.WithHandlerFunc(slowHandlerTCP),
 			options.WithOnNewConn(func(cc *tcpclient.Conn) {
 				mu.Lock()
 				idx := len(conns)
@@ -158,6 +159,7 @@ func runSrvTCP(t *testing.T, c caseDef, useDefault bool) []string {
 			for _, p := range peers {
 				p.Close()
 			}
+			time.Sleep(time.Minute) // a slow handler may still be running (virtual time)
 			<-served
 			synctest.Wait()
 		}()
@@ -248,6 +250,12 @@ func runSrvTCP(t *testing.T, c caseDef, useDefault bool) []string {
 						m.SetToken(message.Token{0x01})
 					}
 					send(peer, m)
+				case "recvslow":
+					at, _ := strconv.ParseInt(f[1], 10, 64)
+					d, _ := strconv.ParseInt(f[2], 10, 64)
+					sleepTo(start, at)
+					n++
+					send(peer, slowRequest(d, int32(n), false))
 				case "trickle":
 					at, _ := strconv.ParseInt(f[1], 10, 64)
 					sleepTo(start, at)
@@ -309,6 +317,7 @@ func runSrvDTLS(t *testing.T, c caseDef, useDefault bool) []string {
 			options.WithErrors(func(error) {}),
 			options.WithMessagePool(pool.New(64, 2048)),
 			options.WithPeriodicRunner(func(f func(now time.Time) bool) { tickFn = f }),
+			options.WithHandlerFunc(slowHandlerUDP),
 			options.WithOnNewConn(func(cc *udpclient.Conn) {
 				mu.Lock()
 				idx := len(conns)
@@ -350,6 +359,7 @@ func runSrvDTLS(t *testing.T, c caseDef, useDefault bool) []string {
 			for _, p := range peers {
 				p.close()
 			}
+			time.Sleep(time.Minute) // a slow handler may still be running (virtual time)
 			<-served
 			synctest.Wait()
 		}()
@@ -439,6 +449,12 @@ func runSrvDTLS(t *testing.T, c caseDef, useDefault bool) []string {
 						m.SetToken(message.Token{0x78, byte(mid)})
 					}
 					send(peer, m)
+				case "recvslow":
+					at, _ := strconv.ParseInt(f[1], 10, 64)
+					d, _ := strconv.ParseInt(f[2], 10, 64)
+					sleepTo(start, at)
+					mid++
+					send(peer, slowRequest(d, mid, true))
 				case "pong":
 					g, _ := strconv.Atoi(f[1])
 					at, _ := strconv.ParseInt(f[2], 10, 64)
